@@ -334,6 +334,19 @@ func RunConcScenario(sc *Scenario) (vd *Verdict) {
 			}
 		}
 	}
+	if sc.Property == "C19" {
+		r.Stats["catalogue_checks"]++
+		if v, name := checkCatalogue(h, nil); v != nil {
+			// KF-C19-1: create / delete / rename of a dataset racing writes to the same dataset name
+			if r.tainted[name] {
+				v.Signature = "concurrent-with-dataset-management:" + v.Signature
+			} else {
+				v.Signature = "concurrent:" + v.Signature
+			}
+			fail(v)
+		}
+		return
+	}
 	// serial replay in commit order; reads are checked at their position
 	var reads []*concOp
 	for _, cos := range r.ops {
